@@ -27,7 +27,7 @@ func init() {
 			{"EVENT-PUBLIC", ruleEventPublic},
 		},
 		Meta: eng.PropMeta{
-			Explanation: "Decides the structural side of 'every read and write path passes the document ACP': (ACP-WRAP) in wrappingFetcher.Start, whenever an ACP is configured the permissioned fetcher wraps the complete stack built so far (index or prefix fetcher and the deleted-documents fetcher); (ACP-NEXTDOC) permissionedFetcher.NextDoc hands out a docID only on the true edge of a Read-permission check of that docID; (ACP-GATE) every function of internal/db that writes a document commit (coreblock.AddDelta) is reached only through the true edge of checkAccessOfDocWithACP with the Update resp. Delete permission — in the function itself or in every caller (create is the tabled exemption: it registers ownership); (ACP-READ-GATE) exists, GetAllDocIDs and VerifySignature consult the Read permission before revealing a document; (ACP-PLUMB) inside the engine the ACP handle and the requester identity are passed on unchanged (never replaced by None) at every call that accepts them; (ACP-SOURCES) every plan leaf that reads a store reaches the permission check through the type-flow call graph; (EVENT-PUBLIC) update events carry only ids, cid and the block bytes.",
+			Explanation: "Decides the structural side of 'every read and write path passes the document ACP': (ACP-WRAP) in wrappingFetcher.Start, whenever an ACP is configured the permissioned fetcher wraps the complete stack built so far (index or prefix fetcher and the deleted-documents fetcher); (ACP-NEXTDOC) permissionedFetcher.NextDoc hands out a docID only on the true edge of a Read-permission check of that docID; (ACP-GATE) every function of internal/db that writes a document commit (coreblock.AddDelta) is reached only through the true edge of checkAccessOfDocWithACP with the Update resp. Delete permission — in the function itself or in every caller (create is the tabled exemption: it registers ownership); (ACP-READ-GATE) exists, GetAllDocIDs and VerifySignature consult the Read permission before revealing a document; (ACP-PLUMB) inside the engine the ACP handle and the requester identity are passed on unchanged (never replaced by None) at every call that accepts them; (ACP-SOURCES) every plan leaf that reads a store reaches the permission check through the type-flow call graph; (EVENT-PUBLIC) update events carry only ids, cid and the block bytes. (COMMITS-ACP-GATE) dagScanNode.Next yields a commit only after a call reaching internal/db/permission.Check* and never on the branch where it answered false. All gate rules decide 'with the check's answer assumed false the sink is unreachable' and 'every path to the sink passes the check', rather than pruning the edges that agree with a granted permission.",
 			NotDecided:  "non-interference over aggregates, joins, ordering and limits (information flow through counts and positions); grant/revoke timing; the ACP engine itself (third party)",
 		},
 	})
